@@ -25,6 +25,7 @@ static const VSpec VM_SPEC[VM_NS] = {
 #define VM_NCFG 4
 #include "tier_c/machine_common.hpp"
 struct A : St<1> {}; struct L : St<2> {}; struct L1 : St<3> {}; struct N : St<4> {}; struct N1 : St<5> {}; struct N2 : St<6> {};
+#define VM_FOR_STATES(F_) F_(A, 1) F_(L, 2) F_(L1, 3) F_(N, 4) F_(N1, 5) F_(N2, 6)
 #include "tier_c/view.hpp"
 #include "tier_c/steps.hpp"
 #include "tier_c/entries.hpp"
